@@ -14,7 +14,8 @@
    (A) [vm_run] -- the explicit-stack state machine of the Go code: a stack of states
        (message / group / map entry, with endGroup, tail, requiredMask as the list of required
        numbers seen), the unrolled 10-byte varint skip and the one/two-byte fast paths for tags
-       and lengths, depth ++/-- on push and pop.  Msg/ValidateStackP.v proves (A) = (B).
+       and lengths, depth ++/-- on push and pop.  (A) = (B) is checked by execution on every case
+       of family dectot (both are computed, a difference fails the case); it is not proved.
 
    Results: [VOk init quirk rest]
      init   the [initialized] output (every message state closed with all its required fields
@@ -284,4 +285,196 @@ Definition vm_dec_class (slow : bool) (S : schema) (limit : nat) (tid : nat) (bs
   match msg_decode slow S limit tid bs with
   | DErr e => derr_code e
   | DOk v => if msg_check_init S tid v then 0 else 6
+  end.
+
+(* ====================================================================================
+   (A) the explicit-stack state machine, as written in validate.go.
+   Executed next to (B) on every case of family dectot (ocaml/fam_dectot.ml fails the case when
+   the two disagree); the equality (A) = (B) is checked by execution, not proved. *)
+
+(* validationType *)
+Inductive vm_vtype :=
+| VtOther | VtMessage (tid : nat) | VtGroup (tid : nat)
+| VtMap (kt : vm_vtype) (vt : vm_vtype) (vmi : option nat)
+| VtRepVarint | VtRepFixed32 | VtRepFixed64 | VtVarint | VtFixed32 | VtFixed64 | VtBytes | VtUTF8.
+
+(* newValidationInfo / newFieldValidationInfo *)
+Definition vm_scalar_vtype (sk : skind) (utf8 repeated : bool) : vm_vtype :=
+  match sk with
+  | SkString => if utf8 then VtUTF8 else VtBytes
+  | SkBytes => if repeated then VtOther else VtBytes
+  | _ => match sk_wt sk with
+         | 0 => if repeated then VtRepVarint else VtVarint
+         | 5 => if repeated then VtRepFixed32 else VtFixed32
+         | _ => if repeated then VtRepFixed64 else VtFixed64
+         end
+  end.
+Definition vm_field_vtype (fd : fdesc) : vm_vtype :=
+  match f_card fd with
+  | CMap kk kutf8 _ =>
+    VtMap (match kk with SkString => if kutf8 then VtUTF8 else VtOther | _ => VtOther end)
+          (match f_kind fd with
+           | KMsg t => VtMessage t
+           | KS SkString => if f_utf8 fd then VtUTF8 else VtOther
+           | _ => VtOther end)
+          (match f_kind fd with KMsg t => Some t | _ => None end)
+  | c =>
+    match f_kind fd with
+    | KMsg t => VtMessage t
+    | KGrp t => VtGroup t
+    | KS sk => vm_scalar_vtype sk (f_utf8 fd) (card_repeated c)
+    end
+  end.
+
+(* one entry of the [states] slice *)
+Record vm_state := mkVS {
+  vs_typ : vm_vtype;            (* VtMessage / VtGroup / VtMap *)
+  vs_end : N;                   (* endGroup *)
+  vs_tail : list byte;
+  vs_mask : list N              (* requiredMask: numbers (map state: 2) whose bit is set *)
+}.
+
+(* the unrolled varint skip: the first byte below 0x80 among the first ten, the tenth below 2 *)
+Fixpoint vm_skip_varint_k (k : nat) (b : list byte) : option (list byte) :=
+  match k with
+  | O => None
+  | Datatypes.S k' =>
+    match b with
+    | [] => None
+    | x :: r =>
+      match k' with
+      | O => if b2n x <? 2 then Some r else None
+      | _ => if b2n x <? 128 then Some r else vm_skip_varint_k k' r
+      end
+    end
+  end.
+Definition vm_skip_varint (b : list byte) := vm_skip_varint_k 10 b.
+
+(* tags and lengths: one byte, two bytes, else protowire.ConsumeVarint *)
+Definition vm_fast_varint (b : list byte) : option (N * list byte) :=
+  match b with
+  | [] => None
+  | b0 :: r =>
+    if b2n b0 <? 128 then Some (b2n b0, r)
+    else match r with
+         | b1 :: r' =>
+           if b2n b1 <? 128 then Some (b2n b0 mod 128 + b2n b1 * 128, r')
+           else match dec_varint b with Ok (v, r2) => Some (v, r2) | Err _ => None end
+         | [] => match dec_varint b with Ok (v, r2) => Some (v, r2) | Err _ => None end
+         end
+  end.
+
+Inductive vm_out := VmValid (init : bool) | VmInvalid | VmFuel.
+
+Definition vm_compat (t : vm_vtype) (wtyp : N) : bool :=
+  match t with
+  | VtVarint => wtyp =? 0
+  | VtFixed32 => wtyp =? 5
+  | VtFixed64 => wtyp =? 1
+  | VtBytes | VtUTF8 | VtMessage _ => wtyp =? 2
+  | VtGroup _ => wtyp =? 3
+  | _ => false
+  end.
+
+Section VmRun.
+  Variable S : schema.
+
+  Definition vm_md (t : vm_vtype) : mdesc :=
+    match t with VtMessage tid | VtGroup tid => nth tid S [] | _ => [] end.
+
+  (* PopState: the required-field check of the state that is closed *)
+  Definition vm_pop_ok (st : vm_state) : bool :=
+    match vs_typ st with
+    | VtMessage tid | VtGroup tid => vr_req_ok (nth tid S []) (vs_mask st)
+    | VtMap _ _ (Some tid) => negb (vr_reqof S tid) || vr_seen (vs_mask st) 2
+    | _ => true
+    end.
+
+  (* fuel: every iteration consumes a byte or pops a state *)
+  Fixpoint vm_run (fuel : nat) (states : list vm_state) (b : list byte) (depth : nat) (init : bool) : vm_out :=
+    match fuel with
+    | O => VmFuel
+    | Datatypes.S fuel' =>
+      match states with
+      | [] => VmValid init
+      | st :: below =>
+        let pop (b' : list byte) := vm_run fuel' below b' (Datatypes.S depth) (init && vm_pop_ok st) in
+        match b with
+        | [] => if vs_end st =? 0 then pop (vs_tail st) else VmInvalid
+        | _ =>
+          match vm_fast_varint b with
+          | None => VmInvalid
+          | Some (tag, b1) =>
+            let num := tag / 8 in
+            let wtyp := tag mod 8 in
+            if (num <? 1) || (msg_max_num <? num) then VmInvalid
+            else if wtyp =? 4 then (if vs_end st =? num then pop b1 else VmInvalid)
+            else
+              (* validationInfo of this field in this state: type, required bit *)
+              let '(vt, req) :=
+                match vs_typ st with
+                | VtMap kt vt _ =>
+                  if num =? 1 then (kt, false) else if num =? 2 then (vt, true) else (VtOther, false)
+                | t =>
+                  match msg_find_field (vm_md t) num with
+                  | Some fd => (vm_field_vtype fd, vr_is_req fd)
+                  | None => (VtOther, false)
+                  end
+                end in
+              let st' := if req && vm_compat vt wtyp
+                         then mkVS (vs_typ st) (vs_end st) (vs_tail st) (num :: vs_mask st) else st in
+              let continue (b' : list byte) := vm_run fuel' (st' :: below) b' depth init in
+              let push (nt : vm_vtype) (e : N) (tail content : list byte) :=
+                match depth with
+                | O => VmInvalid
+                | Datatypes.S d' => vm_run fuel' (mkVS nt e tail [] :: st' :: below) content d' init
+                end in
+              match wtyp with
+              | 0 => match vm_skip_varint b1 with Some b2 => continue b2 | None => VmInvalid end
+              | 2 =>
+                match vm_fast_varint b1 with
+                | None => VmInvalid
+                | Some (size, b2) =>
+                  if N.of_nat (length b2) <? size then VmInvalid
+                  else
+                    let v := firstn (N.to_nat size) b2 in
+                    let b3 := skipn (N.to_nat size) b2 in
+                    match vt with
+                    | VtMessage _ | VtMap _ _ _ => push vt 0 b3 v
+                    | VtRepVarint => if vr_varints (x00 :: v) v then continue b3 else VmInvalid
+                    | VtRepFixed32 => if N.of_nat (length v) mod 4 =? 0 then continue b3 else VmInvalid
+                    | VtRepFixed64 => if N.of_nat (length v) mod 8 =? 0 then continue b3 else VmInvalid
+                    | VtUTF8 => if msg_utf8_valid v then continue b3 else VmInvalid
+                    | _ => continue b3
+                    end
+                end
+              | 5 => match take 4 b1 with Some (_, b2) => continue b2 | None => VmInvalid end
+              | 1 => match take 8 b1 with Some (_, b2) => continue b2 | None => VmInvalid end
+              | 3 =>
+                match vt with
+                | VtGroup _ => push vt num [] b1
+                | _ => match vr_skip num 3 b1 with Some b2 => continue b2 | None => VmInvalid end
+                end
+              | _ => VmInvalid
+              end
+          end
+        end
+      end
+    end.
+End VmRun.
+
+(* MessageInfo.validate(b, groupTag = 0, depth = limit) *)
+Definition vm_validate_stack (S : schema) (limit : nat) (tid : nat) (bs : list byte) : N * bool :=
+  match limit with
+  | O => (2, false)
+  | Datatypes.S d =>
+    match nth_error S tid with
+    | None => (2, false)
+    | Some _ =>
+      match vm_run S (2 * length bs + 2) [mkVS (VtMessage tid) 0 [] []] bs d true with
+      | VmValid i => (3, i)
+      | VmInvalid => (2, false)
+      | VmFuel => (0, false)
+      end
+    end
   end.
